@@ -88,6 +88,17 @@ CLAIMED["C18"] = dict(
          "Not covered deductively: index orders and degeneracy factors of the _tb.dat/_hr.dat writers/readers, PointGroup serialisation.",
     note=TB + "; text model: float(token) returns the number written to printed precision; np.savez/np.load value round trip")
 
+CLAIMED["C04"] = dict(
+    text="The documented random gauge: (i) class-shape obligations -- every attribute Data_K.UU_K / Data_K.degen read on self is assigned "
+         "in the class hierarchy (the two obligations the unchanged tree failed); (ii) Data_K.degen (real text) for all real sorted "
+         "energies at nb = 2..5: the groups are exactly the maximal runs of consecutive gaps <= threshold of length > 1; (iii) Data_K.UU_K "
+         "(real text, real numpy on symbolic complex entries, 2 k-points x 4 bands): each degenerate group's columns are the old columns "
+         "times that group's unitary matrix, every other entry untouched, nothing happens without the option. Invariance of the results "
+         "themselves (gauge covariance of the formulas) and periodicity k -> k+G are carried by a bounded stand-in only: evaluate_k on "
+         "random Hermitian models with external-term matrices at k, k+G and with random_gauge, plus a doubled model with exact "
+         "degeneracies (labelled bounded). Periodicity of the phases is the integer-shift law of the phase algebra used in C02/C33.",
+    note=TB + "; scipy.stats.unitary_group.rvs returns a unitary matrix (external); gauge covariance of the trace formulas is NOT proved")
+
 NOT_APPLICABLE = {
     "C20": "real-space symmetrisation is a data-dependent floating-point orbit search over irrep objects; its postcondition is only statable through an eigen-solver, no discrete/algebraic kernel is left once externals are abstracted (DESIGN section 7)",
     "C21": "rotation matrices are produced inside sympy (polynomial expansion + evalf); orthogonality/composition live in that CAS computation, outside any contract this engine can generate VCs for (DESIGN section 7)",
